@@ -125,6 +125,25 @@ class AnnotationDAGBuilder:
         self._dag.add_node(source_node_id)
         self._dag.add_node(dest_node_id)
 
+        kwarg_name = edge_data.get(EdgeField.kwarg_name)
+
+        if kwarg_name is not None and self._dag.has_edge(source_node_id, dest_node_id):
+            # На одну зависимость могут ссылаться несколько параметров узла. Ребро между двумя узлами одно,
+            # поэтому оно хранит имена всех параметров, иначе остался бы только последний параметр.
+            edge = self._dag.edges[source_node_id, dest_node_id]
+            first_kwarg_name = edge.get(EdgeField.kwarg_name)
+            extra_kwarg_names = edge.get(EdgeField.extra_kwarg_names, ())
+
+            if first_kwarg_name is not None and kwarg_name not in (first_kwarg_name, *extra_kwarg_names):
+                edge_data = {
+                    **edge_data,
+                    EdgeField.kwarg_name: first_kwarg_name,
+                    EdgeField.extra_kwarg_names: (*extra_kwarg_names, kwarg_name),
+                }
+
+            elif first_kwarg_name is not None:
+                edge_data = {**edge_data, EdgeField.kwarg_name: first_kwarg_name}
+
         self._dag.add_edge(source_node_id, dest_node_id, **edge_data)
 
     def _add_switch_node(self, node_id: NodeId, switch_decide_node_id: NodeId) -> None:
@@ -235,7 +254,9 @@ class AnnotationDAGBuilder:
                         )
                         _set_visited(case_node)
 
-                    self._dag.add_edge(switch_node_id, get_node_id(current_node), **{EdgeField.kwarg_name: kwarg_name})
+                    self._add_node_pair_to_dag(
+                        switch_node_id, get_node_id(current_node), **{EdgeField.kwarg_name: kwarg_name},
+                    )
                     self._synthetic_nodes.append(switch_node_id)
 
     def _validate_recurrent_node_base_classes(self) -> None:
